@@ -246,3 +246,14 @@ CLAIMED.update({
          "note": STD_NOTE + ORDER_NOTE + " Together with C06 (the epoll table itself).",
          "technique": "static analysis: exhaustive evaluation of extracted add/del code over finite counter/flag domains against a reference model (K6), channel-symmetry twins (K7), must-pass-through (K3), slot exhaustiveness (K10)"},
 })
+CLAIMED.update({
+ "C04": {"level": "other",
+         "text": "Translation and masking links between the kernel's report and the callback's result flags, by exhaustive evaluation of the extracted code: evmap_io_active_ on all "
+                 "32 interests x 16 reports (activated exactly when the event asked for a reported condition, result = interest AND report); for every function in an eventop dispatch "
+                 "slot the readiness translation on every combination of the kernel bits it reads (epoll 32, poll 64, select 4) against the reference map, the reported fd taken from "
+                 "the same kernel record, EV_ET added by epoll only, nothing reported after a failed wait (EINTR -> 0, other -> -1); event_del_nolock_ leaves the event on no queue for "
+                 "every flag value (no callback after del in the loop thread). Whether a change reaches the kernel at all is C05/C06. Declined: real readiness, level/edge dynamics, "
+                 "cross-backend agreement on concrete scenarios.",
+         "note": STD_NOTE + ORDER_NOTE,
+         "technique": "static analysis: exhaustive evaluation of extracted translation regions over the finite kernel-bit domains against reference maps (K6), provenance of the reported fd (K8), sibling agreement of dispatch slots (K7)"},
+})
